@@ -424,6 +424,10 @@ func checkC08(c *Check) {
 	c.Rule("R12", "shared with C11 (R6)", "Routes hands every entry of a comma list (also an empty one, e.g. after a trailing comma) to Route, where unknown methods are refused", 1)
 	c.Share("C11", []string{"R6"}, 1)
 
+	// ---- R13 an accepted route is reachable by its own instances subject only to priority
+	c.Rule("R13", "shared with C10 (R1, R2, R6)", "registration publishes a leaf to the static shortcut only where that leaf itself reports Static() (asked per method: an earlier optional sibling in one method's tree shadows it there), under its own text and method", 4)
+	c.Share("C10", []string{"R1", "R2", "R6"}, 4)
+
 	// ---- R6 root typestate
 	c.Rule("R6", "E3 nil-typestate", "the segment of a tree that may be the root (parent == nil) is used only where getParent() != nil has been established", 1)
 	checkRootTypestate(c, regs)
